@@ -89,6 +89,8 @@ func runSmall(c *core.Ctx) []core.Obligation {
 	smallDepthNotCountedTwice(c, b)
 	smallWave17(c, b)
 	smallKeyFoldingAgrees(c, b)
+	smallStructTagOptions(c, b)
+	smallWave18(c, b)
 	smallStringOptionNull(c, b)
 	smallStringOptionMarshaler(c, b)
 	return b.out
@@ -3928,6 +3930,11 @@ func smallWave17(c *core.Ctx, b *ob) {
 				if cc.IsInvoke() && cc.Method.Name() == "Read" && strings.HasSuffix(cc.Value.Type().String(), "io.Reader") {
 					bad = c.InstrPos(ci)
 				}
+				// a concrete reader's Read (bytes.Reader, bufio.Reader) may be short as well: at the
+				// end of the input it returns what is left with a nil error
+				if f := staticCallee(cc); f != nil && f.Name() == "Read" && f.Signature.Recv() != nil && f.Signature.Params().Len() == 1 && f.Signature.Params().At(0).Type().String() == "[]byte" && !strings.HasPrefix(shortName(fn), "thrift.(*debugReader)") {
+					bad = c.InstrPos(ci)
+				}
 			}
 		}
 		switch {
@@ -4211,5 +4218,225 @@ func smallKeyFoldingAgrees(c *core.Ctx, b *ob) {
 		b.addP(props, core.Violation, key, bad, "the case-insensitive index of field names is keyed by something other than appendToLower(name), the function object keys are folded with before the lookup (strings.ToLower agrees with it on ASCII only: it maps 'É' to 'é', appendToLower maps both to one representative of the case orbit): {\"ké\":1} does not reach the field Ké, {\"straße\":2} not the field Straße — encoding/json matches both")
 	default:
 		b.addP(props, core.Discharged, key, c.FuncPos(fold), fmt.Sprintf("%d index update(s) keyed by appendToLower(name), the function keys are folded with", n))
+	}
+}
+
+// S70 — generated Go code labels a field opt, req or rep in the third position of its protobuf
+// struct tag. A tag that parseStructTag rejects is dropped as a whole by structCodecOf, which then
+// numbers the field by its position: a proto2 `required` field tagged varint,5,req is written as
+// field 1. The option switch must know all three labels.
+func smallStructTagOptions(c *core.Ctx, b *ob) {
+	props := []string{"C12", "C03"}
+	key := "struct-tag:field-labels"
+	fn := c.Lookup("proto.parseStructTag")
+	if fn == nil {
+		b.addP(props, core.Undecided, key, "-", "proto.parseStructTag not found")
+		return
+	}
+	have := map[string]bool{}
+	for _, blk := range fn.Blocks {
+		for _, in := range blk.Instrs {
+			bo, ok := in.(*ssa.BinOp)
+			if !ok || bo.Op != token.EQL {
+				continue
+			}
+			for _, op := range []ssa.Value{bo.X, bo.Y} {
+				if k, ok := op.(*ssa.Const); ok && k.Value != nil && k.Value.Kind() == constant.String {
+					have[constant.StringVal(k.Value)] = true
+				}
+			}
+		}
+	}
+	var missing []string
+	for _, l := range []string{"opt", "req", "rep"} {
+		if !have[l] {
+			missing = append(missing, l)
+		}
+	}
+	switch {
+	case !have["varint"]:
+		b.addP(props, core.Undecided, key, c.FuncPos(fn), "parseStructTag does not compare tag fields with string constants")
+	case len(missing) > 0:
+		b.addP(props, core.Violation, key, c.FuncPos(fn), fmt.Sprintf("parseStructTag does not accept the field label(s) %v that generated code writes in the third position of a protobuf tag: the tag is rejected, structCodecOf drops it and numbers the field by its position — struct{A uint64 `protobuf:\"varint,5,req,name=a\"`} is written as field 1 (08 01) instead of field 5 (28 01)", missing))
+	default:
+		b.addP(props, core.Discharged, key, c.FuncPos(fn), "opt, req and rep are accepted")
+	}
+}
+
+// smallWave18 groups single-site clauses added after the eighteenth round of seeded changes.
+func smallWave18(c *core.Ctx, b *ob) {
+	// S71 — thrift.Unmarshal reports trailing bytes by asking the bytes.Reader it created how much
+	// is left: that only means something when the protocol reader consumes from that very reader.
+	// Behind a bufio.Reader the input is drained into the buffer at the first read and Len() is 0
+	// whatever follows the value.
+	{
+		props := []string{"C08"}
+		key := "thrift-unmarshal:trailing-check-on-the-reader-in-use"
+		fn := c.Lookup("thrift.Unmarshal")
+		if fn == nil {
+			b.addP(props, core.Undecided, key, "-", "thrift.Unmarshal not found")
+		} else {
+			var lenRecv, newReaderArg ssa.Value
+			for _, ci := range callsIn(fn) {
+				cc := ci.Common()
+				if f := staticCallee(cc); f != nil && f.Name() == "Len" && strings.Contains(shortName(f), "bytes.") && len(cc.Args) == 1 {
+					lenRecv = cc.Args[0]
+				}
+				if cc.IsInvoke() && cc.Method.Name() == "NewReader" && len(cc.Args) == 1 {
+					newReaderArg = cc.Args[0]
+				}
+			}
+			switch {
+			case lenRecv == nil || newReaderArg == nil:
+				b.addP(props, core.Undecided, key, c.FuncPos(fn), "Unmarshal does not create its protocol reader with p.NewReader and test (*bytes.Reader).Len afterwards")
+			default:
+				same := false
+				if mi, ok := newReaderArg.(*ssa.MakeInterface); ok && mi.X == lenRecv {
+					same = true
+				}
+				if same {
+					b.addP(props, core.Discharged, key, c.FuncPos(fn), "the reader whose remaining length is tested is the one the protocol reader consumes from")
+				} else {
+					b.addP(props, core.Violation, key, c.FuncPos(fn), "thrift.Unmarshal tests the remaining length of its bytes.Reader, but the protocol reader does not read from it directly (a bufio.Reader in between drains it at the first read): trailing bytes after the value — garbage, or a second value — are no longer reported")
+				}
+			}
+		}
+	}
+	// S72 — the options of a thrift struct tag accumulate: required,enum sets both. Inside the
+	// option loop of forEachStructField every new value of flags derives from the previous one.
+	{
+		props := []string{"C08", "C04"}
+		key := "thrift-tags:options-accumulate"
+		fn := c.Lookup("thrift.forEachStructField")
+		if fn == nil {
+			b.addP(props, core.Undecided, key, "-", "thrift.forEachStructField not found")
+		} else {
+			n, bad := 0, ""
+			for _, blk := range fn.Blocks {
+				for _, in := range blk.Instrs {
+					phi, ok := in.(*ssa.Phi)
+					if !ok || !strings.HasSuffix(phi.Type().String(), "thrift.flags") {
+						continue
+					}
+					// a φ that feeds itself: the loop-carried flags
+					self := false
+					for _, e := range phi.Edges {
+						if e != ssa.Value(phi) && dependsOn(e, func(x ssa.Value) bool { return x == ssa.Value(phi) }) {
+							self = true
+						}
+					}
+					if !self {
+						continue
+					}
+					n++
+					for i, e := range phi.Edges {
+						if !blk.Dominates(blk.Preds[i]) {
+							continue // entry edge: the initial value
+						}
+						for _, o := range origins(e) {
+							if o == ssa.Value(phi) {
+								continue
+							}
+							if !dependsOn(o, func(x ssa.Value) bool { return x == ssa.Value(phi) }) {
+								bad = c.InstrPos(phi)
+							}
+						}
+					}
+				}
+			}
+			switch {
+			case n == 0:
+				b.addP(props, core.Undecided, key, c.FuncPos(fn), "no loop-carried flags value found in forEachStructField")
+			case bad != "":
+				b.addP(props, core.Violation, key, bad, "an option of a thrift struct tag replaces the flags collected so far instead of adding to them: with `thrift:\"1,required,enum\"` the required bit is lost, the field never enters the decoder's required mask and a message without it decodes without a MissingField error")
+			default:
+				b.addP(props, core.Discharged, key, c.FuncPos(fn), "every option adds to the flags collected so far")
+			}
+		}
+	}
+	// S73 — what a map decoder stores in the destination map is the caller's from then on: it is
+	// not the scratch value that the next entry is decoded into (and that clear() wipes).
+	{
+		props := []string{"C10", "C02"}
+		n, badAny := 0, false
+		for _, fn := range c.RepoFunctions() {
+			name := shortName(fn)
+			if fn.Blocks == nil || !strings.HasPrefix(name, "json.(decoder).decodeMap") {
+				continue
+			}
+			// scratch cells: locals declared outside the entry loop whose address is handed to a
+			// decode call (a variable declared in the loop body is a new one for every entry)
+			inLoop := map[*ssa.BasicBlock]bool{}
+			for _, h := range loopHeaders(fn) {
+				for blk := range loopBlocks(h) {
+					inLoop[blk] = true
+				}
+			}
+			scratch := map[*ssa.Alloc]bool{}
+			for _, ci := range callsIn(fn) {
+				f := staticCallee(ci.Common())
+				if f == nil || !strings.HasPrefix(f.Name(), "decode") {
+					continue
+				}
+				for _, a := range ci.Common().Args {
+					if al, ok := stripConv(a).(*ssa.Alloc); ok && isSliceType(al.Type().Underlying().(*types.Pointer).Elem()) && !inLoop[al.Block()] {
+						scratch[al] = true
+					}
+				}
+			}
+			// a variable reset to nil for every entry holds nothing of the previous one: the decode
+			// call gives it fresh memory
+			for _, blk := range fn.Blocks {
+				for _, in := range blk.Instrs {
+					if st, ok := in.(*ssa.Store); ok && isNilConst(st.Val) {
+						if al, ok := st.Addr.(*ssa.Alloc); ok {
+							delete(scratch, al)
+						}
+					}
+				}
+			}
+			if len(scratch) == 0 {
+				continue
+			}
+			key := "map-decode:scratch-not-stored:" + name
+			n++
+			bad := ""
+			for _, blk := range fn.Blocks {
+				for _, in := range blk.Instrs {
+					mu, ok := in.(*ssa.MapUpdate)
+					if !ok {
+						continue
+					}
+					var walk func(v ssa.Value, depth int)
+					walk = func(v ssa.Value, depth int) {
+						if depth > 6 {
+							return
+						}
+						switch x := v.(type) {
+						case *ssa.Phi:
+							for _, e := range x.Edges {
+								walk(e, depth+1)
+							}
+						case *ssa.Slice:
+							walk(x.X, depth+1)
+						case *ssa.UnOp:
+							if al, ok := x.X.(*ssa.Alloc); ok && x.Op == token.MUL && scratch[al] {
+								bad = c.InstrPos(mu)
+							}
+						}
+					}
+					walk(mu.Value, 0)
+				}
+			}
+			if bad != "" {
+				badAny = true
+				b.addP(props, core.Violation, key, bad, name+" stores in the destination map the scratch slice that the next entry is decoded into (no copy on that path): the list handed out is wiped and overwritten while the caller holds it — for map[string][]string, lists of exactly 10, 20, 40 … elements come back holding the next entry's strings")
+			} else {
+				b.addP(props, core.Discharged, key, c.FuncPos(fn), "the values stored in the map are copies of the scratch slice")
+			}
+		}
+		if n == 0 && !badAny {
+			b.addP(props, core.Undecided, "map-decode:scratch-not-stored", "-", "no map decoder with a scratch slice found")
+		}
 	}
 }
